@@ -41,8 +41,8 @@ class CallableHelper:
 class Base:
     base_plain = 11
 
-    def base_unexposed(self, *a, **k):
-        log("base_unexposed")
+    def bunexposed(self, *a, **k):
+        log("bunexposed")
         return 1
 
     @expose
@@ -51,13 +51,13 @@ class Base:
         return 2
 
     @property
-    def base_prop_unexposed(self):
-        log("base_prop_unexposed.get")
+    def bhidden(self):
+        log("bhidden.get")
         return 3
 
-    @base_prop_unexposed.setter
-    def base_prop_unexposed(self, v):
-        log("base_prop_unexposed.set")
+    @bhidden.setter
+    def bhidden(self, v):
+        log("bhidden.set")
         self.state = v
 
     @expose
@@ -231,10 +231,15 @@ SHAPES = {
         "oneway": set()}),
 }
 
-UNEXPOSED_PROPERTIES = {"PerMember": ["hidden", "base_prop_unexposed"], "WholeClass": ["base_prop_unexposed"],
-                        "NotExposed": ["nprop", "base_prop_unexposed"]}
+UNEXPOSED_PROPERTIES = {"PerMember": ["hidden", "bhidden"], "WholeClass": ["bhidden"],
+                        "NotExposed": ["nprop", "bhidden"]}
 NONSTRING_NAMES = [None, 5, b"m", ("m",), 1.5]
 KINDS = ["call", "batch", "oneway", "get", "set"]
+
+
+@expose
+def twin_member(self):
+    return "twin"
 
 
 def in_names(name, names):
@@ -246,6 +251,10 @@ def h_request(S, B):
     del LOG[:]
     shape = S.choice("shape", B["SHAPES"])
     cls, table = SHAPES[shape]
+    # vacuity guard: every member name of the shape must fit the bound on the symbolic name
+    too_long = [n for n in dir(cls()) if not (n.startswith("__") and n.endswith("__") and n not in ("__len__",)) and len(n) > B["L"]]
+    if too_long:
+        raise RuntimeError("harness: member names longer than the name bound L=%d: %s" % (B["L"], too_long))
     kind = S.choice("kind", KINDS)
     if S.flag("name_is_string"):
         name = S.str("name", B["L"])
@@ -272,6 +281,10 @@ def h_request(S, B):
     else:
         call = ("obj", name, (), {})
     target = cls()
+    # an unrelated class that merely has the same module and qualified name (built by a factory, say) was asked for
+    # its member list earlier: what the daemon advertises for the target must not depend on that
+    twin = type(cls.__name__, (object,), {"__module__": cls.__module__, "__qualname__": cls.__qualname__, "twin_only": twin_member})
+    server._get_exposed_members(twin())
     sock = rig.FakeSock("A")
     daemon = rig.make_daemon()
     daemon.objectsById["obj"] = target
